@@ -51,14 +51,34 @@ Qed.
 
 Lemma q_empty_true_nil x iss del : TInv x iss del -> snd (q_empty x) = true -> qev (fst (q_empty x)) = [].
 Proof.
-  intros I. unfold q_empty. pose proof (empty_true_nil x iss del I).
-  destruct (empty (q x)) as [q1 e]. cbn [fst snd sh set_thr_uqs set_thr_q qev] in *. auto.
+  intros I. unfold q_empty. pose proof (empty_true_nil x iss del I) as H.
+  destruct (empty (q x)) as [q1 e]. cbn [fst snd sh set_thr_uqs set_thr_q qev] in *.
+  intro He. apply andb_prop in He as [He _]. auto.
 Qed.
 
 Lemma q_empty_fields x : let x1 := fst (q_empty x) in
   qev x1 = qev x /\ tbuf x1 = tbuf x /\ tvalid x1 = tvalid x /\ failc x1 = failc x /\ pend x1 = pend x /\
   wflush x1 = wflush x /\ tcap x1 = tcap x /\ texists x1 = texists x /\ counted x1 = counted x.
 Proof. unfold q_empty. destruct (empty (q x)). cbn. repeat split. Qed.
+
+(* the next-pointer hint of an unbounded queue is not touched by empty() *)
+Lemma nnext_upd_same (l : list Queue.UQDefs.node) : forall i q2,
+  Queue.UQDefs.nnext (nth i (Queue.UQDefs.upd l i
+     {| Queue.UQDefs.nq := q2; Queue.UQDefs.ncap := Queue.UQDefs.ncap (nth i l Queue.UQDefs.dnode);
+        Queue.UQDefs.nnext := Queue.UQDefs.nnext (nth i l Queue.UQDefs.dnode);
+        Queue.UQDefs.nfreed := Queue.UQDefs.nfreed (nth i l Queue.UQDefs.dnode) |}) Queue.UQDefs.dnode)
+  = Queue.UQDefs.nnext (nth i l Queue.UQDefs.dnode).
+Proof.
+  induction l as [|h t IH]; intros i q2; destruct i; cbn [Queue.UQDefs.upd nth]; try reflexivity. apply IH.
+Qed.
+Lemma u_hint_qempty x : u_hint (fst (q_empty x)) = u_hint x.
+Proof.
+  unfold q_empty. destruct (empty (q x)) as [q1 e]. cbn [fst]. unfold u_hint, sh. cbn [uqs set_thr_uqs set_thr_q].
+  destruct (uqs x) as [u|]; cbn [option_map]; [|reflexivity].
+  unfold u_empty, Queue.UQDefs.uq_empty. destruct (empty (Queue.UQDefs.nq (Queue.UQDefs.getn u (Queue.UQDefs.cons u)))) as [q2 e2]. cbn [fst].
+  unfold Queue.UQDefs.setq, Queue.UQDefs.set_nodes, Queue.UQDefs.getn. cbn [Queue.UQDefs.cons Queue.UQDefs.nodes].
+  now rewrite nnext_upd_same.
+Qed.
 
 (* ---------- frontend steps *)
 Lemma upd_same {A} (f : nat -> A) t x : upd f t x t = x.
